@@ -42,7 +42,8 @@ def classify(r):
         c = r["case"]
         if "nearnull" in c["classes"]:
             return "dedup|null-entry-equals-value"
-        return "gen|%s|%s" % (cls, vlib.digest(c["shape"]))
+        s = c["shape"]
+        return "gen|%s|kind=%s|layout=%s|classes=%s" % (cls, s["kind"], s["layout"], "+".join(sorted(set(c["classes"]))))
     return "corpus|%s|%s" % (cls, r.get("input", "").split("|")[0])
 
 
